@@ -115,6 +115,8 @@ def do_check(mod, a):
                     agg["harness"].append({"seed": j["seed"], "detail": "worker failure: %r" % (e,)})
                     continue
                 merge(agg, st)
+                if j["index"] < 64:
+                    agg.setdefault("job_evdigs", {})[j["index"]] = list(st.get("evdigs", []))
             if time.monotonic() - t0 > wall * 1.5 + 60:
                 agg["harness"].append({"detail": "batch exceeded 1.5x wall cap; abandoning %d pending jobs" % len(pending)})
                 for f in pending:
@@ -130,9 +132,22 @@ def do_check(mod, a):
                 except Exception:
                     pass
 
-    # post-batch self-checks supplied by the module (determinism etc.)
+    # post-batch determinism re-sample: re-run the first K jobs in this (other) process and compare
+    # the per-scenario event-log digests with those recorded in the batch
+    core.preload()
+    K = int(os.environ.get("POTSIM_RESAMPLE", "4" if tier == "quick" else "32"))
+    resample = {"jobs": 0, "scenarios": 0, "mismatches": 0}
+    for j in joblist[:K]:
+        if j["index"] not in agg.get("job_evdigs", {}):
+            continue
+        st2 = mod.run_job(j)
+        resample["jobs"] += 1
+        resample["scenarios"] += len(st2.get("evdigs", []))
+        if list(st2.get("evdigs", [])) != agg["job_evdigs"][j["index"]]:
+            resample["mismatches"] += 1
+            agg["harness"].append({"seed": j["seed"], "detail": "determinism re-sample: event-log digests of job %d differ between two executions" % j["index"]})
+    agg["extra"]["determinism_resample"] = resample
     if hasattr(mod, "post_batch"):
-        core.preload()
         mod.post_batch(agg, seed, tier, scratch)
 
     # violations: group by class, minimise the first of each unlisted class, write replay
@@ -260,6 +275,10 @@ def build_coverage(mod, agg, tier, wall_s, truncated, workers, known_hit):
         "components": getattr(mod, "COMPONENTS", {}),
     }
     cov.update(agg.get("extra", {}))
+    cov.setdefault("simulated_clock_seconds", 0.0)
+    cov["simulated_time_note"] = ("virtual wall-clock seconds the simulated clock was moved by clock-jump operations (C12); "
+                                  "in every other run the virtual clock is frozen at its start value, and there are no timers or "
+                                  "deadlines in the repository for discrete-event time to skip over")
     if "sched" in agg:
         cov["distinct_interleavings"] = len(agg["sched"])
         cov["distinct_interleavings_measure"] = "distinct digests of the recorded scheduler decision sequence among non-trivial runs"
